@@ -114,6 +114,9 @@ Inductive doc_scalar : engine -> sty -> jv -> res pv -> Prop :=
 | d_enum_int : forall e ms1 z name ms2,
     (forall v n, In (v, n) ms1 -> jv_py_eqb v (JInt z) = false) ->
     doc_scalar e (SEnum (ms1 ++ (JInt z, name) :: ms2)) (JInt z) (Ok (VEnum name))
+| d_senum_str : forall e ms1 s name ms2,
+    (forall v n, In (v, n) ms1 -> jv_py_eqb v (JStr s) = false) ->
+    doc_scalar e (SStrEnum (ms1 ++ (JStr s, name) :: ms2)) (JStr s) (Ok (VEnum name))
 (* Decimal: "de-serialized using the Decimal(str(o)) syntax" *)
 | d_dec_str : forall e s, doc_scalar e SDecimal (JStr s) (rmap VDecimal (o_decimal O s))
 | d_dec_int : forall e z, doc_scalar e SDecimal (JInt z) (rmap VDecimal (o_decimal O (str_of_Z z)))
